@@ -1,4 +1,4 @@
-import SqlgrepModel.Lemmas.AggBatch
+import SqlgrepModel.Lemmas.AggJoin
 /-
 C04 — GROUP BY: one row per group, every aggregate computed from that group's rows.
 
@@ -207,8 +207,8 @@ theorem updates_do_not_fail {O : Oracles} {q : AggStmt} (hwf : StmtWF q) (envs :
     exact aggRun_progress envs (coupled_init O q) hr (by simpa using hfolds) hkeys
 
 /-- **`agg_refines_spec` at the level of the check itself.** `runBatch` is the function the compiled driver executes
-for a `batch` case (the `FileExecutor` loop over all files and lines, admission of lines, the engine, the final table
-printed once, the line count); `Spec.Agg.batch` is the specification's answer that `./check` compares with the
+for a `batch` case (the `FileExecutor` loop over all files and lines, admission of lines, the hash index of a JOIN, the
+engine, the final table printed once, the line count); `Spec.Agg.batch` is the specification's answer that `./check` compares with the
 implementation's. Whenever the specification answers and names no known deviation class, the two are EQUAL — so a
 case on which implementation and model agree (correspondence) and the class is empty is a case on which the
 implementation meets the specification, and vice versa. -/
@@ -216,6 +216,14 @@ theorem batch_model_eq_spec {O : Oracles} {qy : Query} {q : AggStmt} (hq : qy.st
     (joined : List FileLine) (files : List (List FileLine)) {ro : RunOut}
     (h : Spec.Agg.batch O qy q joined files = some (ro, "")) : runBatch O qy joined files none = ro :=
   batch_refines_spec hq hwf joined files h
+
+/-- **aggregates over a JOIN**: the rows the statement sees are the nested loop of C05 (`Spec.Join.specJoin`: for every
+admitted input row, in input order, one row per admitted joined row with an equal non-NULL key, in file order; never the
+NULL-padded row), and the table is the specification's table over those rows -/
+theorem batch_over_join_model_eq_spec {O : Oracles} {qy : Query} {q : AggStmt} (hq : qy.stmt = .aggregate q) (hwf : StmtWF q)
+    {j : JoinInfo} (hj : qy.join = some j) (joined : List FileLine) (files : List (List FileLine)) {ro : RunOut}
+    (h : Spec.Agg.batch O qy q joined files = some (ro, "")) : runBatch O qy joined files none = ro :=
+  batch_refines_spec_join hq hwf hj joined files h
 
 /-! ### negation witnesses of the two open findings (kernel-evaluated; the harness replays them on the implementation) -/
 
